@@ -204,6 +204,35 @@ func RunC17(c *Ctx) {
 		gen.Desc = fmt.Sprintf("generated string #%d", i)
 		checkCompatString(c, gen, b)
 	}
+	// position sweep: one or two invalid bytes at every position of otherwise plain strings of
+	// every length up to 72 (chunked fast paths are position sensitive; seeded change C17/m1)
+	ps := &h.Case{Family: "position-sweep"}
+	bad := []byte{0x80, 0xbf, 0xc0, 0xc3, 0xe2, 0xed, 0xf0, 0xf8, 0xff}
+	fill := []byte("abcdefghijklmnopqrstuvwxyz0123456789ABCDEFGHIJKLMNOPQRSTUVWXYZ-_.,;:!?()[]{}")
+	pcount := 0
+	for L := 1; L <= 72; L++ {
+		for pos := 0; pos < L; pos++ {
+			for bi, bb := range bad {
+				for second := -1; second < L; second += 1 + L/6 {
+					pcount++
+					if c.NShards > 1 && pcount%c.NShards != c.Shard {
+						continue
+					}
+					b := append([]byte(nil), fill[:L]...)
+					b[pos] = bb
+					if second >= 0 && second != pos {
+						b[second] = bad[(bi+3)%len(bad)]
+					}
+					c.Rec.R.Cases++
+					c.Rec.R.Nontrivial++
+					c.Rec.C("position_sweep_cases")
+					ps.Input = b
+					ps.Desc = fmt.Sprintf("length %d, byte 0x%02x at offset %d, second invalid byte at %d", L, bb, pos, second)
+					checkCompatString(c, ps, b)
+				}
+			}
+		}
+	}
 	// value trees
 	nt := 60000
 	if c.Thorough() {
